@@ -449,6 +449,23 @@ theorem hprod256_pd_tree (a : Reg β) : hprod256Pd op 5 1 a = op (op (a 2) (a 3)
   simp [hprod256Pd, lanewise, shuffle256Pd]
 end hsum
 
+
+section hfoldmonoid
+open Finset
+variable {M : Type} [CommMonoid M]
+
+/-- in a commutative monoid the horizontal trees are the product over all lanes -/
+theorem hsum_ps_fold (sse3 : Bool) (a : Reg M) : hsumPs (· * ·) sse3 (mmShuffle 3 3 1 1) a = ∏ l ∈ range 4, a l := by
+  rw [hsum_ps_tree]; simp [Finset.prod_range_succ, mul_assoc]
+theorem hsum256_ps_fold (sse3 : Bool) (a : Reg M) : hsum256Ps (· * ·) sse3 (mmShuffle 3 3 1 1) 1 a = ∏ l ∈ range 8, a l := by
+  rw [hsum256_ps_tree]; simp [Finset.prod_range_succ]; ac_rfl
+theorem hprod256_ps_fold (sse3 : Bool) (a : Reg M) : hprod256Ps (· * ·) sse3 (mmShuffle 3 3 1 1) 1 a = ∏ l ∈ range 8, a l := by
+  rw [hprod256_ps_tree]; simp [Finset.prod_range_succ, mul_assoc]
+theorem hsum256_pd_fold (a : Reg M) : hsum256Pd (· * ·) 5 1 a = ∏ l ∈ range 4, a l := by
+  rw [hsum256_pd_tree]; simp [Finset.prod_range_succ, mul_assoc]
+theorem hprod256_pd_fold (a : Reg M) : hprod256Pd (· * ·) 5 1 a = ∏ l ∈ range 4, a l := by
+  rw [hprod256_pd_tree]; simp [Finset.prod_range_succ]; ac_rfl
+end hfoldmonoid
 end horizontal
 
 /-! ## determinants -/
